@@ -153,3 +153,71 @@ Proof.
   assert ((c_bt c <=? m_idle m)%N = true) by now apply N.leb_le. rewrite H in H2.
   destruct w; [reflexivity | discriminate].
 Qed.
+
+(* ---- immediate answers ------------------------------------------------------------------------------------------ *)
+
+(* the calls after this step's registration (the event's own calls, or those of the resumed tasks),
+   and the latest outcome produced per key, this step's productions included: both computed from the
+   script and the monitor state before the step, exactly as [mon_step] does *)
+Definition step_calls (c : cfg) (m : mst) (e : event) : list mcall :=
+  let now := match e with Advance dt => (m_now m + dt)%N | _ => m_now m end in
+  let mx := match e with SetMax n => n | _ => m_maxb m end in
+  let '(calls1, es1, ex1, imm1) :=
+    reg_calls c now mx (m_step m) (calls_of e) (m_calls m) (m_entries m) (m_expect m) [] in
+  let '(bstep, produced, live1, freed) :=
+    match bat_effect (m_live m) e with Some x => x | None => (0, [], m_live m, false) end in
+  let '(calls3, _, _, _) :=
+    reg_calls c now mx (m_step m) (recall_list (m_calls m) produced) calls1 (set_done now es1 produced) ex1 imm1 in
+  calls3.
+
+Definition step_last (m : mst) (e : event) : list (nat * outcome) :=
+  let '(bstep, produced, live1, freed) :=
+    match bat_effect (m_live m) e with Some x => x | None => (0, [], m_live m, false) end in
+  fold_left (fun l ko => ko :: l) produced (m_last m).
+
+(* a call answered in the step in which it was made got the latest outcome the script made the batch
+   function produce for its key *)
+Definition imm_justified (c : cfg) (m : mst) (e : event) (os : list obs) : Prop :=
+  forall i o t, In (CallerDone i o t) os -> length (m_calls m) <= i ->
+    exists mc, nth_error (step_calls c m e) i = Some mc /\ lookup (step_last m e) (mc_key mc) = Some o.
+
+Lemma mon_step_imm c m e os :
+  m_bad04 (mon_step c m e os) = false -> m_bad04 m = false /\ imm_justified c m e os.
+Proof.
+  unfold mon_step, imm_justified, step_calls, step_last.
+  destruct (reg_calls c _ _ _ (calls_of e) _ _ _ _) as [[[calls1 es1] ex1] imm1].
+  destruct (match bat_effect (m_live m) e with Some x => x | None => (0, [], m_live m, false) end)
+    as [[[bstep produced] live1] freed] eqn:Ebat.
+  destruct (reg_calls c _ _ _ (recall_list _ _) _ _ _ _) as [[[calls3 es3] ex3] imm].
+  match goal with |- context [fold_left ?f (starts_of os) ?m1] =>
+    destruct (fold_check_start c (length (m_live m)) freed (starts_of os) m1) as (_ & A2 & _ & _) end.
+  cbn [m_bad04]. rewrite A2. cbn [m_bad04]. intros H. apply orb_false_elim in H as [H1 H2]. split; [exact H1|].
+  apply negb_false_iff in H2. repeat (apply andb_prop in H2 as [H2 ?]).
+  intros i o t Hin Hi. apply in_dones_of in Hin.
+  assert (Hl : In (i, o) (map fst (filter (fun d => negb (fst (fst d) <? length (m_calls m))) (dones_of os)))).
+  { apply in_map_iff. exists (i, o, t). split; auto. apply filter_In. split; auto. simpl.
+    apply negb_true_iff. apply Nat.ltb_ge. exact Hi. }
+  match goal with Hf : forallb (imm_ok04 calls3 _) _ = true |- _ => pose proof (proj1 (forallb_forall _ _) Hf _ Hl) as Hok end.
+  unfold imm_ok04 in Hok. simpl in Hok. destruct (nth_error calls3 i) as [mc|]; [|discriminate].
+  exists mc. split; auto. destruct (lookup _ (mc_key mc)) as [o'|]; [|discriminate].
+  apply outcome_eqb_eq in Hok. now subst o'.
+Qed.
+
+Lemma mon_run_imm c : forall evs observed m m',
+  mon_run c m evs observed = Some m' -> m_bad04 m' = false ->
+  m_bad04 m = false /\ all_steps (imm_justified c) c m evs observed.
+Proof.
+  induction evs as [|e er IH]; intros [|os or] m m' H Hb; simpl in H; try discriminate.
+  - injection H as <-. split; [exact Hb | exact Logic.I].
+  - destruct (IH or (mon_step c m e os) m' H Hb) as [H1 H2].
+    destruct (mon_step_imm c m e os H1) as [H3 H4]. split; [exact H3|]. simpl. split; auto.
+Qed.
+
+Lemma ok_C04_sound_imm c evs observed w :
+  ok_C04 (BCase c evs observed w) = true -> all_steps (imm_justified c) c (minit c) evs observed.
+Proof.
+  unfold ok_C04, final. intros H. apply andb_prop in H as [_ H].
+  destruct (mon_run c (minit c) evs observed) as [m|] eqn:E; [|discriminate].
+  apply andb_prop in H as [H _]. apply negb_true_iff in H.
+  destruct (mon_run_imm c evs observed _ _ E H) as [_ A]. exact A.
+Qed.
